@@ -230,7 +230,15 @@ func c09Source(cfg c09Config, i int) (string, []c09Call) {
 	}
 	switch s.Kind {
 	case 1:
-		sb.WriteString("a b\n")
+		// five ways not to parse: a plain syntax error, and texts for which
+		// the parser records SEVERAL diagnostics (it recovers from a constant
+		// zero divisor and from a for-in over a number) on one or more lines.
+		// The way is the same for all members of a configuration (twins).
+		v := cfg.N
+		for _, o := range cfg.Scripts {
+			v += 7*len(o.Calls) + 3*o.Kind
+		}
+		sb.WriteString([]string{"a b\n", "x = 1 / 0\nw = 2 % 0\n", "for q in 5 {\n}\nw = 1 / 0\nv = 1 / 0\n", "x = 1 / 0; w = 2 % 0\na b\n", "x = \"open\n"}[v%5])
 	case 2:
 		// two ways to fail the check pass: an unknown function inside a block
 		// after a pattern definition at top level, and a grok that needs that
